@@ -1120,9 +1120,13 @@ impl MutableArchive {
             Err(_) => String::new(), // If can't read, start fresh
         };
 
-        // Add new filename if not already present
+        // Add new filename if not already present. Names are compared line by line: a
+        // substring test would take `config.txt` for listed once `data\config.txt` is
         let filename_line = filename.to_string();
-        if !current_content.contains(&filename_line) {
+        let already_listed = current_content
+            .lines()
+            .any(|line| line.trim_end_matches('\r').eq_ignore_ascii_case(filename));
+        if !already_listed {
             if !current_content.ends_with('\n') && !current_content.is_empty() {
                 current_content.push('\n');
             }
